@@ -216,3 +216,70 @@ Example C03_budget_example :
   forallb fuel_free t_five = false /\
   forallb fuel_free [NRaw ["a"%byte]; NCond (mkCond ["x"%byte] ["1"%byte] false true OpEq [] [] LcNone) [NBlock BTrue no_case [NExit]]] = true.
 Proof. exact budget_example. Qed.
+
+(* ---- index paths inside counting loops (Proofs/SpecFacts.v) ---- *)
+From DT Require Import Proofs.SpecFacts.
+
+(* inside a counting loop  pre[i]post  reads as  pre.<text of i>post : one substitution, of the
+   first bracket pair; the rewritten path is looked up as it stands *)
+Theorem C03_index_path : forall e pre i post v t,
+  e_qb e = true ->
+  no_byte b_lbr pre = true -> no_byte b_rbr pre = true -> no_byte b_rbr i = true ->
+  env_get_plain e i = v -> v <> VNil -> text_of [] v = Some t ->
+  env_get e (pre ++ [b_lbr] ++ i ++ [b_rbr] ++ post) = Some (env_get_plain e (pre ++ ["."%byte] ++ t ++ post)).
+Proof. exact index_path_ref. Qed.
+Print Assumptions C03_index_path.
+
+Theorem C03_index_path_int : forall e pre i post n,
+  e_qb e = true ->
+  no_byte b_lbr pre = true -> no_byte b_rbr pre = true -> no_byte b_rbr i = true ->
+  env_get_plain e i = VInt n ->
+  env_get e (pre ++ [b_lbr] ++ i ++ [b_rbr] ++ post) = Some (env_get_plain e (pre ++ ["."%byte] ++ print_Z n ++ post)).
+Proof. exact index_path_int. Qed.
+Print Assumptions C03_index_path_int.
+
+(* with no further opening bracket after the index it reads exactly like the dotted path ... *)
+Theorem C03_index_path_int_dotted : forall e pre i post n,
+  e_qb e = true ->
+  no_byte b_lbr pre = true -> no_byte b_rbr pre = true -> no_byte b_rbr i = true -> no_byte b_lbr post = true ->
+  env_get_plain e i = VInt n ->
+  env_get e (pre ++ [b_lbr] ++ i ++ [b_rbr] ++ post) = env_get e (pre ++ ["."%byte] ++ print_Z n ++ post).
+Proof. exact index_path_int_dotted. Qed.
+Print Assumptions C03_index_path_int_dotted.
+
+(* ... but not in general: only the first bracket pair is substituted (g[i][j] vs g.1[j]) *)
+Theorem C03_index_path_two_brackets_refuted : ~ index_path_two_brackets_full_statement.
+Proof. exact index_path_two_brackets_refuted. Qed.
+Print Assumptions C03_index_path_two_brackets_refuted.
+
+(* outside counting loops the brackets are not rewritten *)
+Theorem C03_no_index_outside_loops : forall e path, e_qb e = false -> env_get e path = Some (env_get_plain e path).
+Proof. exact no_index_outside_loops. Qed.
+Print Assumptions C03_no_index_outside_loops.
+
+(* the interpreter: Ctx.get with the flag the counter loop sets *)
+Theorem C03_index_path_model : forall c pre i post v t,
+  chQB c = true ->
+  no_byte b_lbr pre = true -> no_byte b_rbr pre = true -> no_byte b_rbr i = true ->
+  gp_val c i = v -> v <> VNil -> text_of (bufLC c) v = Some t ->
+  ctx_get c (pre ++ [b_lbr] ++ i ++ [b_rbr] ++ post) = (set_cerr None c, gp_val c (pre ++ ["."%byte] ++ t ++ post)).
+Proof. exact index_path_model. Qed.
+Print Assumptions C03_index_path_model.
+
+Theorem C03_no_index_outside_loops_model : forall c path,
+  chQB c = false -> ctx_get c path = (set_cerr None c, gp_val c path).
+Proof. exact no_index_outside_loops_model. Qed.
+Print Assumptions C03_no_index_outside_loops_model.
+
+Example C03_index_path_example :
+  env_get e_users (Sb "users[i].name"%string) = Some (VStr (Sb "bob"%string)) /\
+  env_get e_users (Sb "users.1.name"%string) = Some (VStr (Sb "bob"%string)) /\
+  env_get (set_eqb false e_users) (Sb "users[i].name"%string) = Some VNil.
+Proof. exact index_path_example. Qed.
+Example C03_index_path_second_bracket_example :
+  env_get e_grid (Sb "g[i][j]"%string) = Some VNil /\ env_get e_grid (Sb "g.1[j]"%string) = Some (VStr (Sb "c"%string)).
+Proof. exact index_path_second_bracket. Qed.
+Example C03_index_path_model_example :
+  snd (ctx_get c_users (Sb "users[i].name"%string)) = VStr (Sb "bob"%string) /\
+  snd (ctx_get (set_chQB false c_users) (Sb "users[i].name"%string)) = VNil.
+Proof. exact index_path_model_example. Qed.
